@@ -11,6 +11,8 @@
 #include <numeric>
 #include <utility>
 
+#include "verif-hooks.h"
+
 namespace dsplib {
 
 //-------------------------------------------------------------------------------------------------
@@ -267,6 +269,7 @@ int nextpow2(int m) {
 
     int p = 0;
     while ((m >> p) != 0) {
+        DSPLIB_VERIF_STEP();
         ++p;
     }
 
